@@ -440,9 +440,10 @@ Definition read_dimen (units : list (list Z)) (s : list tok) (lvl0 : Z) : res Q 
 
 Definition gluev : Type := (Q * option Q * option Q)%type.
 
-Definition read_fil_part (kw : list Z) (units : list (list Z)) (s : list tok) (lvl : Z) : res (option Q) :=
+(* readStretch / readShrink: each has its own `units + [...]` list in the source (fils) *)
+Definition read_fil_part (kw : list Z) (units fils : list (list Z)) (s : list tok) (lvl : Z) : res (option Q) :=
   match read_keyword [kw] true s with
-  | (Some _, s1) => match read_dimen (units ++ fil_units) s1 lvl with
+  | (Some _, s1) => match read_dimen (units ++ fils) s1 lvl with
                     | Ok q s2 l => Ok (Some q) s2 l
                     | Crash k l => Crash k l
                     | Unmod => Unmod
@@ -460,11 +461,11 @@ Definition read_glue (units : list (list Z)) (s : list tok) (lvl0 : Z) : res glu
       | Unmod => Unmod
       | Crash k l => Crash k l
       | Ok d s3 lvl1 =>
-          match read_fil_part kw_plus units s3 lvl1 with
+          match read_fil_part kw_plus units fil_units s3 lvl1 with
           | Unmod => Unmod
           | Crash k l => Crash k l
           | Ok st s4 lvl2 =>
-              match read_fil_part kw_minus units s4 lvl2 with
+              match read_fil_part kw_minus units fil_units_minus s4 lvl2 with
               | Unmod => Unmod
               | Crash k l => Crash k l
               | Ok sh s5 lvl3 => Ok ((inject_Z sign * d)%Q, st, sh) s5 (lvl3 + 1)
